@@ -218,7 +218,26 @@ def helper_histories():
     wk = np.asarray(a.kpts.wk)
     if wk.shape != (3,) or not np.allclose(wk, 1 / 3) or not np.allclose(np.asarray(a.occ.wk), 1 / 3):
         bad.append(dict(history="build(); set_k(three points, no weights); build()", kpts_wk=wk.tolist(), occ_wk=np.asarray(a.occ.wk).tolist()))
-    return bool(bad), dict(check="Atoms.recenter / Atoms.set_k against fresh objects", failing=bad[:4])
+    # the centring mode assigned again after cell / positions changed: as a fresh object with the same final inputs and that mode
+    for mode in (True, "shift", "rotate"):
+        for change in ("a and pos", "pos", "a"):
+            p0, p1 = [[0.3, 0.1, 0.2], [1.5, 2.4, 0.3]], [[0.5, 1.2, 0.0], [0.1, 0.5, 0.2]]
+            a = _mk(atom=["H", "H"], pos=p0, a=6.0, center=mode)
+            a.build()
+            if "a" in change.split(" and "):
+                a.a = 10.0
+            newpos = p1 if "pos" in change else p0
+            a.pos = newpos
+            a.center = mode
+            a.build()
+            f = _mk(atom=["H", "H"], pos=newpos, a=10.0 if "a" in change.split(" and ") else 6.0, center=mode)
+            f.build()
+            d = _diff(_summary(a), _summary(f))
+            if not np.allclose(np.asarray(a.pos), np.asarray(f.pos), atol=1e-12):
+                d.append("pos")
+            if d:
+                bad.append(dict(history=f"Atoms(H2, center={mode!r}); build(); new {change}; center = {mode!r}; build()  vs  fresh object", fields_that_differ=d))
+    return bool(bad), dict(check="Atoms.recenter / Atoms.set_k / Atoms.center against fresh objects", failing=bad[:4])
 
 
 def replay_history(wit):
